@@ -774,7 +774,8 @@ def run(ck):
     stats["malformed_kinds"] = sorted(stats.get("malformed_kinds", []))
     ck.cov["stats"] = stats
     ck.cov["sequences"] = len(cases)
-    allfails.sort(key=lambda x: (x[0], x[1]))
+    # smallest failing prefix first; among equals prefer sequences on a real directory (their replay shows the restart)
+    allfails.sort(key=lambda x: (x[0] // 4, x[7] != "dir", x[0], x[1]))
     seen = set()
     for (i, _, mon, what, name, ops, ans, mode) in allfails:
         cls = mon + ":" + re.sub(r"\d+", "N", what)[:48]
